@@ -7,16 +7,20 @@ package eventrecorder
 // histories that had been completely saved.
 
 import (
+	"crypto/x509"
+	"crypto/x509/pkix"
 	"fmt"
 	"os"
 	"os/exec"
 	"path/filepath"
 	"reflect"
+	"sync"
 	"syscall"
 	"testing"
 	"time"
 
 	"github.com/Cloud-Foundations/golib/pkg/log/nulllogger"
+	"golang.org/x/crypto/ssh"
 )
 
 func c20NewRecorder() *EventRecorder {
@@ -51,7 +55,7 @@ func TestVerifC20(t *testing.T) {
 		c20Child()
 		return
 	}
-	rep := newVerifReport("C20", "(history) generated per-user event lists (random kinds, monotonic create times around the retention edge) recorded by the real recorder, saved, loaded by a fresh recorder: the list after load == the list before, same order, minus entries older than retention, also after a second save/load cycle; expiry of old events drops exactly the stale ones; a child process saving growing histories in a loop is SIGKILLed at seeded instants and the file must decode to a completely saved history; the real 5-second save timer path through the public channels; class = (events per user, stale share, cycle)")
+	rep := newVerifReport("C20", "(history) generated per-user event lists (random kinds, monotonic create times around the retention edge) recorded by the real recorder, saved, loaded by a fresh recorder: the list after load == the list before, same order, minus entries older than retention, also after a second save/load cycle; expiry of old events drops exactly the stale ones; a child process saving growing histories in a loop is SIGKILLed at seeded instants and the file must decode to a completely saved history; the real 5-second save timer path through the public channels, once per event kind as the last event after an answered events request, then restart; class = (events per user, stale share, cycle)")
 	defer rep.Finish()
 	rng := verifRand("c20hist")
 	dir, _ := os.MkdirTemp("", "verif-c20-")
@@ -151,45 +155,121 @@ func TestVerifC20(t *testing.T) {
 			rep.Count("expiries_checked", 1)
 		}
 	}
-	// ---- public channels + the real 5 s save timer + restart
+	// ---- public channels + the real 5 s save timer + restart: one live recorder per event kind, all at once.  Each
+	// gets a mixed prefix of every kind, is asked for its events (the recorder keeps a snapshot), then receives one last
+	// event of its kind with nothing after it, is asked again, is left alone until its save timer has fired, and is
+	// restarted from the file: the last event must be in the live view and in the history after the restart.
 	{
-		file := filepath.Join(dir, "live.gob")
-		sr, err := New(file, nulllogger.New())
-		if err != nil {
-			rep.Inconc("recorder: %v", err)
-		} else {
-			for i := 0; i < 6; i++ {
-				sr.AuthChannel <- &AuthInfo{AuthType: AuthTypePassword, Username: "live"}
-				sr.WebLoginChannel <- "live"
-				sr.ServiceProviderLoginChannel <- &SPLoginInfo{URL: fmt.Sprintf("https://sp%d/", i), Username: "live"}
-				time.Sleep(20 * time.Millisecond)
-			}
-			ask := func(r *EventRecorder) []EventType {
-				ch := make(chan Events, 1)
-				r.RequestEventsChannel <- ch
-				select {
-				case e := <-ch:
-					return e.Events["live"]
-				case <-time.After(5 * time.Second):
-					return nil
-				}
-			}
-			before := ask(sr)
-			time.Sleep(6500 * time.Millisecond) // the recorder saves 5 s after the last event
-			sr2, err := New(file, nulllogger.New())
-			if err != nil {
-				rep.Violate("C20/history/restart-load-failed", err.Error(), nil)
-			} else {
-				after := ask(sr2)
-				rep.Eval(fmt.Sprintf("history|live-restart|events=%d", len(before)))
-				if len(before) != 18 || !reflect.DeepEqual(before, after) {
-					rep.Violate("C20/history/restart-differs", "history after a restart of the recorder differs from the one before",
-						map[string]interface{}{"before": c20Brief(before), "after": c20Brief(after)})
-				} else {
-					rep.Count("live_restart_ok", 1)
-				}
+		type kind struct {
+			name  string
+			send  func(r *EventRecorder, user string, i int)
+			match func(e EventType) bool
+		}
+		kinds := []kind{
+			{"auth", func(r *EventRecorder, u string, i int) {
+				r.AuthChannel <- &AuthInfo{AuthType: AuthTypeU2F, Username: u}
+			}, func(e EventType) bool {
+				return e.AuthType == AuthTypeU2F && !e.Ssh && !e.X509 && !e.WebLogin && e.ServiceProviderUrl == ""
+			}},
+			{"web-login", func(r *EventRecorder, u string, i int) { r.WebLoginChannel <- u }, func(e EventType) bool { return e.WebLogin }},
+			{"service-provider-login", func(r *EventRecorder, u string, i int) {
+				r.ServiceProviderLoginChannel <- &SPLoginInfo{URL: fmt.Sprintf("https://sp%d/", i), Username: u}
+			}, func(e EventType) bool { return e.ServiceProviderUrl != "" }},
+			{"ssh-cert", func(r *EventRecorder, u string, i int) {
+				r.SshCertChannel <- &ssh.Certificate{ValidPrincipals: []string{u}, ValidBefore: uint64(time.Now().Add(time.Hour).Unix())}
+			}, func(e EventType) bool { return e.Ssh }},
+			{"x509-cert", func(r *EventRecorder, u string, i int) {
+				r.X509CertChannel <- &x509.Certificate{Subject: pkix.Name{CommonName: u}, NotAfter: time.Now().Add(time.Hour)}
+			}, func(e EventType) bool { return e.X509 }},
+		}
+		// ask returns the recorder's answer to one events request (nil, false when it did not answer in 10 s)
+		ask := func(r *EventRecorder, user string) ([]EventType, bool) {
+			ch := make(chan Events, 1)
+			r.RequestEventsChannel <- ch
+			select {
+			case e := <-ch:
+				return e.Events[user], true
+			case <-time.After(10 * time.Second):
+				return nil, false
 			}
 		}
+		// askUntil repeats the request until the view holds n events.  The recorder serves its channels from one select:
+		// every ANSWERED request is a draw in which the request channel was picked although an event was waiting on
+		// another channel; 80 such draws in a row have probability < 2^-80, so the verdict counts answers, not seconds.
+		askUntil := func(r *EventRecorder, user string, n int) (view []EventType, answered int, ok bool) {
+			for answered < 80 {
+				v, got := ask(r, user)
+				if !got {
+					return view, answered, false
+				}
+				answered++
+				view = v
+				if len(v) >= n {
+					return v, answered, true
+				}
+			}
+			return view, answered, true
+		}
+		var wg sync.WaitGroup
+		for ki, k := range kinds {
+			wg.Add(1)
+			go func(ki int, k kind) {
+				defer wg.Done()
+				user := "live-" + k.name
+				file := filepath.Join(dir, "live-"+k.name+".gob")
+				sr, err := New(file, nulllogger.New())
+				if err != nil {
+					rep.Inconc("recorder: %v", err)
+					return
+				}
+				sent := 0
+				for round := 0; round < 3; round++ {
+					for i, kk := range kinds {
+						kk.send(sr, user, round*10+i)
+						sent++
+					}
+				}
+				mid, a1, ok1 := askUntil(sr, user, sent)
+				if !ok1 {
+					rep.Inconc("live recorder (%s) did not answer an events request within 10 s", k.name)
+					return
+				}
+				k.send(sr, user, 99)
+				sent++
+				before, a2, ok2 := askUntil(sr, user, sent)
+				if !ok2 {
+					rep.Inconc("live recorder (%s) did not answer an events request within 10 s", k.name)
+					return
+				}
+				c := map[string]interface{}{"last_event_kind": k.name, "events_sent": sent, "view_before_last": len(mid), "view_after_last": c20Brief(before),
+					"requests_answered_before_last": a1, "requests_answered_after_last": a2}
+				rep.Eval(fmt.Sprintf("history|live|last=%s|complete=%v", k.name, len(before) == sent))
+				if len(mid) != sent-1 {
+					rep.Violate("C20/history/live-view-incomplete/"+k.name, "the recorder's live view does not hold every event it was sent, after 80 answered requests", c)
+					return
+				}
+				if len(before) != sent || !k.match(before[0]) {
+					rep.Violate("C20/history/last-event-missing-from-view/"+k.name, "an event received after the recorder had answered an events request is still missing from its answers 80 requests later", c)
+					return
+				}
+				time.Sleep(6500 * time.Millisecond) // the recorder saves 5 s after the last event
+				sr2, err := New(file, nulllogger.New())
+				if err != nil {
+					rep.Violate("C20/history/restart-load-failed/"+k.name, err.Error(), c)
+					return
+				}
+				after, _ := ask(sr2, user)
+				c["after_restart"] = c20Brief(after)
+				rep.Eval(fmt.Sprintf("history|live-restart|last=%s|events=%d/%d", k.name, len(after), sent))
+				if !reflect.DeepEqual(before, after) {
+					rep.Violate("C20/history/restart-differs/"+k.name, "history after a restart of the recorder differs from the one before (the recorder had 6.5 s to save after its last event)", c)
+				} else {
+					rep.Count("live_restart_ok", 1)
+					rep.Sample("live-restart:"+k.name, 1, c)
+				}
+			}(ki, k)
+		}
+		wg.Wait()
 	}
 	// ---- crash points
 	kills := 12
@@ -240,7 +320,7 @@ func TestVerifC20(t *testing.T) {
 	}
 	rep.Floor("histories_roundtripped", 100)
 	rep.Floor("expiries_checked", 50)
-	rep.Floor("live_restart_ok", 1)
+	rep.Floor("live_restart_ok", 5)
 	rep.Floor("crash_files_consistent", 3)
 }
 
